@@ -40,9 +40,14 @@ NStep(st, e, t) ==
            ELSE IF e.raised THEN Bad(st, "unsubscribe(all) of a subscribed id raised")
            ELSE Check(st, e, [st EXCEPT !.subs = UnsubscribeAll(st.subs, e.id)])
       [] e.e = "add" ->
-           LET r == AddNode(st.subs, st.nodes, e.kind, e.nid, e.gen) IN
+           LET r == AddNodeX(st.subs, st.nodes, e.kind, e.nid, e.gen, e.extra) IN
            IF e.raised THEN Bad(st, "adding / replacing a node raised")
            ELSE Check(st, e, [st EXCEPT !.subs = r.subs, !.nodes = r.nodes])
+      [] e.e = "addsdo" ->
+           IF e.nid \notin DOMAIN st.nodes \/ st.nodes[e.nid].kind # "remote" THEN Bad(st, "HARNESS: add_sdo on absent / local node")
+           ELSE IF e.raised THEN Bad(st, "add_sdo raised")
+           ELSE LET r == AddSdo(st.subs, st.nodes, e.nid, e.tx) IN
+                Check(st, e, [st EXCEPT !.subs = r.subs, !.nodes = r.nodes])
       [] e.e = "remove" ->
            IF e.nid \notin DOMAIN st.nodes THEN Bad(st, "HARNESS: remove of absent node")
            ELSE IF e.raised THEN Bad(st, "removing a node raised")
